@@ -1279,6 +1279,17 @@ func boolLean(b bool) string {
 	return "false"
 }
 
+// declStmts wraps every function body of a file into one statement list (for whole-file call searches)
+func declStmts(f *ast.File) []ast.Stmt {
+	var out []ast.Stmt
+	for _, d := range f.Decls {
+		if fd, ok := d.(*ast.FuncDecl); ok && fd.Body != nil {
+			out = append(out, fd.Body)
+		}
+	}
+	return out
+}
+
 func emitStruct() {
 	var e emitter
 	e.f("/- generated by /verif/extract from %s — do not edit -/\nnamespace Gen\n", repo)
@@ -1830,6 +1841,60 @@ func emitStruct() {
 	e.f("/-- `Server.Serve`: condition under which an Accept error is retried -/\ndef acceptRetryCond : String := %s\n", leanStr(retryCond))
 	e.f("/-- back-off of the accept loop in milliseconds: first delay, multiplier, cap -/\ndef acceptBackoffFirstMs : Nat := %d\ndef acceptBackoffFactor : Nat := %d\ndef acceptBackoffMaxMs : Nat := %d\n", first, factor, maxd)
 	e.f("def acceptResetsDelay : Bool := %s\ndef acceptSpawnsServe : Bool := %s\ndef serveDefersListenerClose : Bool := %s\n", boolLean(resets), boolLean(spawn), boolLean(deferLClose))
+	// server.go: where a connection's buffered reader / writer come from (every assignment to
+	// `c.buf` or one of its parts), and what `response.WriteStream` returns
+	var bufSrc []string
+	ast.Inspect(srv, func(n ast.Node) bool {
+		if as, ok := n.(*ast.AssignStmt); ok {
+			for i, l := range as.Lhs {
+				if ls := exprString(l); (ls == "c.buf" || strings.HasPrefix(ls, "c.buf.")) && i < len(as.Rhs) {
+					bufSrc = append(bufSrc, ls+"="+exprString(as.Rhs[i]))
+				}
+			}
+		}
+		return true
+	})
+	e.f("/-- every assignment to a connection's buffered reader / writer in server.go -/\ndef connBufferSources : List String := %s\n", strList(bufSrc))
+	var wsRet []string
+	if fd := findFunc(srv, "response", "WriteStream"); fd != nil {
+		ast.Inspect(fd, func(n ast.Node) bool {
+			switch x := n.(type) {
+			case *ast.ReturnStmt:
+				var parts []string
+				for _, r := range x.Results {
+					parts = append(parts, exprString(r))
+				}
+				wsRet = append(wsRet, "return "+strings.Join(parts, ","))
+			case *ast.DeferStmt:
+				wsRet = append(wsRet, "defer "+exprString(x.Call))
+			case *ast.GoStmt:
+				wsRet = append(wsRet, "go "+exprString(x.Call))
+			}
+			return true
+		})
+	} else {
+		wsRet = []string{"unrecognised"}
+	}
+	e.f("/-- `response.WriteStream`: its return, defer and go statements in source order -/\ndef responseWriteStreamExits : List String := %s\n", strList(wsRet))
+	// response.Write: what it returns, and whether anything in server.go resets a buffered writer
+	// (which would clear bufio's sticky error and let a retry resume on a half-written message)
+	var rwRet []string
+	if fd := findFunc(srv, "response", "Write"); fd != nil {
+		ast.Inspect(fd, func(n ast.Node) bool {
+			if x, ok := n.(*ast.ReturnStmt); ok {
+				var parts []string
+				for _, r := range x.Results {
+					parts = append(parts, exprString(r))
+				}
+				rwRet = append(rwRet, "return "+strings.Join(parts, ","))
+			}
+			return true
+		})
+	} else {
+		rwRet = []string{"unrecognised"}
+	}
+	e.f("/-- `response.Write`: its return statements in source order -/\ndef responseWriteReturns : List String := %s\n", strList(rwRet))
+	e.f("/-- `Reset` calls in server.go -/\ndef serverResetCalls : List String := %s\n", strList(callsOf(&ast.FuncDecl{Name: ast.NewIdent("all"), Type: &ast.FuncType{Params: &ast.FieldList{}}, Body: &ast.BlockStmt{List: declStmts(srv)}}, "Reset")))
 	e.f("end Gen\n")
 	e.write("Struct.lean")
 }
